@@ -191,3 +191,19 @@ def l3(x, y=0):
 
 
 LFUNCS = [l1, l2, l3]
+
+
+def _bad_class(name, exc):
+    """an argument that no keymap can encode, failing with the given exception class everywhere"""
+    def boom(self, *a):
+        raise exc('%s cannot be keyed' % name)
+    return type(name, (object,), {'__repr__': boom, '__str__': boom, '__hash__': boom, '__reduce_ex__': boom,
+                                  '__module__': __name__})
+
+
+BadAttr = _bad_class('BadAttr', AttributeError)
+BadRuntime = _bad_class('BadRuntime', RuntimeError)
+BadLookup = _bad_class('BadLookup', LookupError)
+BadRecursion = _bad_class('BadRecursion', RecursionError)
+BAD_BY_KIND = {'value': BadValue, 'type': BadRepr, 'attr': BadAttr, 'runtime': BadRuntime, 'lookuperr': BadLookup,
+               'recursion': BadRecursion}
